@@ -79,7 +79,7 @@ def run(ctx):
     r2 = rep.rule('C12-R2', 'stun::repl answers only class==request(0) and method==binding(1); its own answer carries class success(2)', floor=3)
     st = F.fn('proto::stun::repl')
     rep.saw(st)
-    sp = some_points(st)
+    sp = sorted(set(some_points(st) + forwarded_reply_points(st)))
     gc = eq_edges(st, lambda a, b: isinstance(peel(a), tuple) and peel(a)[0] == 'field' and peel(a)[2] == 'class' and const_val(b) == 0)
     gm = eq_edges(st, lambda a, b: isinstance(peel(a), tuple) and peel(a)[0] == 'field' and peel(a)[2] == 'method' and const_val(b) == 1)
 
@@ -122,7 +122,7 @@ def run(ctx):
         hr = F.fn('<proto::smb::%sHeader as proto::dissector::MPacket>::repl' % ver)
         rep.saw(hr)
         # Some(resp) only after payload.as_ref()? succeeded
-        sp = some_points(hr)
+        sp = sorted(set(some_points(hr) + forwarded_reply_points(hr)))
         def payload_present(d, v, vals):
             # the Some edge of a test on self.payload (`?` is expanded into that match by vlib/combinators.py; an explicit
             # match / if let reads the same)
